@@ -129,7 +129,9 @@ def install():
             if ctx is not None:
                 ctx.mon("M8.disk-post.failure")
             fits = nalt <= len(F) and len(S) > 0     # at an exact multiple the tool may need one more granule: F == nmin is a don't-care
-            if fits:
+            if fits and "\0" in str(coco_file.name):
+                pass            # a name holding NUL characters may be refused; if it is stored the accounting below applies
+            elif fits:
                 _v("C15", "disk-accounting", "FAILED-THOUGH-FITS:%s" % type(e).__name__, dict(w, error=str(e)[:120], needed=nmin))
             elif ctx is not None and (nmin > len(F) or not S):
                 ctx.cell("fail-clean/" + ("no-slot" if not S else "no-granules"))
